@@ -46,11 +46,18 @@ def forcing_cast(e):
 
 
 def lazy_cast_hazard(e):
-    """`expect v: Int = d` (or ByteArray / Bool / Void) whose variables are used, but nowhere strictly"""
+    """`expect v: Int = d` (or ByteArray / Bool / Void) whose variables are used, but nowhere strictly (F10);
+    for Int / ByteArray: nowhere *consumed* strictly (F11). Returns the label of the hazard or None."""
     if not (is_cast(e) and e.annot[0] in PRIM_CASTS):
-        return False
+        return None
     used = [n for n, _t in pattern_vars(e.pat) if occurs(n, e.body)]
-    return bool(used) and not binding_forced(e.pat, e.body)
+    if not used:
+        return None
+    if not binding_forced(e.pat, e.body):
+        return "call-by-need-expect-cast"
+    if e.annot[0] in ("Int", "Bytes") and e.pat.K == "PVar" and not strict_consume(e.pat.name, e.body):
+        return "F3_cast_cancel_expect"
+    return None
 
 
 def binding_forced(pat, body):
@@ -200,6 +207,10 @@ def strict_occ(name, e):
     if k == "IfIs":
         return strict_occ(name, e.subj)
     if k == "When":
+        if e.subj.K in ("TupleE", "PairE", "ConE", "ListE"):
+            # a constructed subject is never built: its components are only evaluated if some pattern inspects
+            # them on the path actually taken (not decidable here)
+            return False
         alts, body0 = e.clauses[0]
         return strict_occ(name, e.subj) and binding_forced(alts[0], body0)
     if k == "Let":
@@ -224,6 +235,75 @@ def strict_occ(name, e):
     if k == "Call":
         return _call_strict(name, e.fn, e.args)
     return any(strict_occ(name, c) for c in children(e))
+
+
+def _is(name, x):
+    return x.K == "Var" and x.name == name
+
+
+DATA_WRAPPERS = ("i_data", "b_data", "list_data", "map_data", "constr_data")
+
+
+def strict_consume(name, e):
+    """Is the *value* of Var(name) certainly inspected as a value of its own type (operand of arithmetic, a
+    comparison, a builtin, a refutable pattern) whenever e is evaluated? Merely storing it (list element,
+    constructor field, up-cast, argument) does not count: FINDINGS F11 (an unchecked Int / ByteArray cast is
+    only noticed when the value is consumed). Conservative."""
+    k = e.K
+    if k in ("Var", "Lit", "Lam", "Capture"):
+        return False
+    if k in ("Fail", "Todo"):
+        return True
+    if k == "Bin":
+        if e.op in ("&&", "||"):
+            return strict_consume(name, e.l)
+        if _is(name, e.l) or _is(name, e.r):
+            return True
+        return strict_consume(name, e.l) or strict_consume(name, e.r)
+    if k == "Un":
+        return _is(name, e.e) or strict_consume(name, e.e)
+    if k == "Builtin":
+        if e.name not in DATA_WRAPPERS and any(_is(name, a) for a in e.args):
+            return True
+        return any(strict_consume(name, a) for a in e.args)
+    if k == "Chain":
+        return strict_consume(name, e.es[0])
+    if k == "If":
+        return strict_consume(name, e.branches[0][0])
+    if k == "IfIs":
+        return strict_consume(name, e.subj)
+    if k == "When":
+        if e.subj.K in ("TupleE", "PairE", "ConE", "ListE"):
+            return False
+        alts, body0 = e.clauses[0]
+        if _is(name, e.subj):
+            return not pats.irrefutable(alts[0], _ADTS)
+        return strict_consume(name, e.subj) and binding_forced(alts[0], body0)
+    if k == "Let":
+        bound = [n for n, _t in pattern_vars(e.pat)]
+        if strict_consume(name, e.rhs) and any(strict_occ(b, e.body) for b in bound):
+            return True
+        if name in bound:
+            return False
+        return strict_consume(name, e.body)
+    if k == "Expect":
+        if strict_consume(name, e.rhs) and (forcing_cast(e) or binding_forced(e.pat, e.body)):
+            return True
+        if any(name == n for n, _t in pattern_vars(e.pat)):
+            return False
+        return strict_consume(name, e.body)
+    if k == "ExpectBool":
+        return strict_consume(name, e.cond) or strict_consume(name, e.body)
+    if k == "Trace":
+        return strict_consume(name, e.body)
+    if k in ("Call", "Backpass"):
+        if strict_consume(name, e.fn):
+            return True
+        sp = STRICT_PARAMS.get(e.fn.name) if e.fn.K == "Var" else None
+        if sp is None:
+            return False
+        return any(i < len(sp) and sp[i] and strict_consume(name, a) for i, a in enumerate(e.args))
+    return any(strict_consume(name, c) for c in children(e))
 
 
 def let_invariants_ok(e, allow_hazard=False):
